@@ -148,12 +148,20 @@ thread_local! {
     /// it writes for that are not part of the read trace
     pub static HANDSHAKE: std::cell::Cell<Option<u8>> = const { std::cell::Cell::new(None) };
 }
+thread_local! {
+    /// when set, the connection first *writes* the packet this frame decodes to (any kind); its bytes are not part of the read trace
+    pub static PREWRITE: std::cell::RefCell<Option<Vec<u8>>> = const { std::cell::RefCell::new(None) };
+}
 fn hs_isi(reqi: u8) -> insim::insim::Isi { insim::insim::Isi { reqi: insim::identifiers::RequestId(reqi), ..Default::default() } }
-fn hs_suffix() -> String { HANDSHAKE.with(|h| h.get()).map(|r| format!(" hs={}", r)).unwrap_or_default() }
+fn hs_suffix() -> String {
+    if let Some(f) = PREWRITE.with(|p| p.borrow().clone()) { return format!(" pw={}", hex(&f)); }
+    HANDSHAKE.with(|h| h.get()).map(|r| format!(" hs={}", r)).unwrap_or_default()
+}
 /// the optional seventh token of a read line: `ws=<write script>` or `hs=<request id>`
 fn parse_seventh(t: Option<&&str>) -> (Vec<WEv>, Option<u8>) {
     match t {
         Some(x) if x.starts_with("hs=") => (vec![], x[3..].parse().ok()),
+        Some(x) if x.starts_with("pw=") => { PREWRITE.with(|p| *p.borrow_mut() = Some(unhex(&x[3..]))); (vec![], None) },
         Some(x) => (parse_wevents(x.trim_start_matches("ws=")), None),
         None => (vec![], None),
     }
@@ -173,6 +181,10 @@ pub fn run_reads(fl: Flavour, compressed: bool, verify: bool, events: Vec<Ev>, w
                 f.verify_version(verify);
                 if let Some(r) = HANDSHAKE.with(|h| h.get()) {
                     let _ = f.handshake(hs_isi(r));
+                    let mut s = sc.lock().unwrap(); s.trace.clear(); s.out.clear(); s.wlog.clear(); s.write_calls.clear();
+                }
+                if let Some(p) = PREWRITE.with(|p| p.borrow().clone()).and_then(|fr| packet_of(compressed, &fr)) {
+                    let _ = f.write(p);
                     let mut s = sc.lock().unwrap(); s.trace.clear(); s.out.clear(); s.wlog.clear(); s.write_calls.clear();
                 }
                 for _ in 0..max_reads {
@@ -205,6 +217,10 @@ pub fn run_reads(fl: Flavour, compressed: bool, verify: bool, events: Vec<Ev>, w
                             let _ = f.handshake(hs_isi(r), std::time::Duration::from_secs(5)).await;
                             let mut s = sc.lock().unwrap(); s.trace.clear(); s.out.clear(); s.wlog.clear(); s.write_calls.clear();
                         }
+                        if let Some(p) = PREWRITE.with(|p| p.borrow().clone()).and_then(|fr| packet_of(compressed, &fr)) {
+                            let _ = f.write(p).await;
+                            let mut s = sc.lock().unwrap(); s.trace.clear(); s.out.clear(); s.wlog.clear(); s.write_calls.clear(); s.flushed_len = 0;
+                        }
                         for _ in 0..max_reads {
                             let before = sc.lock().unwrap().injected;
                             let r = f.read().await;
@@ -216,6 +232,8 @@ pub fn run_reads(fl: Flavour, compressed: bool, verify: bool, events: Vec<Ev>, w
                             if tok == "err timeout" {
                                 tr2.clear_stall();
                             }
+                            // whatever the connection wrote while producing this result (a keep-alive reply) has been flushed
+                            { let mut s = sc.lock().unwrap(); if r.is_ok() && s.flushed_len < s.out.len() { let n = s.out.len() - s.flushed_len; s.trace.push(format!("unflushed={}", n)); } }
                             sc.lock().unwrap().trace.push(tok.clone());
                             if tok == "err disconnected" || tok == "err framing" {
                                 break;
@@ -265,6 +283,8 @@ pub fn run_writes(fl: Flavour, compressed: bool, packets: Vec<Packet>, wscript: 
                             let r = f.write(p).await;
                             let injected = script.lock().unwrap().injected > before;
                             let ok = r.is_ok();
+                            // a write that returned Ok has flushed what it handed to the transport
+                            { let s = script.lock().unwrap(); if ok && s.flushed_len < s.out.len() { res.push(format!("unflushed={}", s.out.len() - s.flushed_len)); } }
                             res.push(match r { Ok(()) => "ok".to_string(), Err(e) => err_token(&e, injected || matches!(e, insim::Error::IO { .. })) });
                             if !ok { break; }
                         }
@@ -546,6 +566,12 @@ pub fn replay_line(ctx: &mut Ctx, prop: &str, l: &str) -> bool {
     match w.as_slice() {
         ["conn.case", fl, m, v, frames, evs] | ["conn.case", fl, m, v, frames, evs, _] => {
             let (ws, hs) = parse_seventh(w.get(6));
+            if ws.iter().any(|e| matches!(e, WEv::IoErr)) {
+                // a failing write half during reads: the oracle-only keep-alive clause (see pong_fault_case)
+                let k = match ws.first() { Some(WEv::Accept(n)) => *n, _ => 0 };
+                pong_fault_case(ctx, if *fl == "tokio" { Flavour::Tokio } else { Flavour::Blocking }, *m == "c", k);
+                return true;
+            }
             HANDSHAKE.with(|h| h.set(hs));
             let case = Case {
                 fl: if *fl == "tokio" { Flavour::Tokio } else { Flavour::Blocking },
@@ -557,6 +583,7 @@ pub fn replay_line(ctx: &mut Ctx, prop: &str, l: &str) -> bool {
             };
             let _ = read_case(ctx, prop, &case);
             HANDSHAKE.with(|h| h.set(None));
+            PREWRITE.with(|p| *p.borrow_mut() = None);
             true
         },
         ["framed.read", fl, m, v, tbl, evs] | ["framed.read", fl, m, v, tbl, evs, _] => {
@@ -569,6 +596,7 @@ pub fn replay_line(ctx: &mut Ctx, prop: &str, l: &str) -> bool {
             let mut op = format!("framed.read {} {} {} {} {}", fl, m, v, tbl_s, script_text(&r.log));
             if !ws.is_empty() { op.push_str(&format!(" ws={}", wscript_text(&ws))); } else { op.push_str(&hs_suffix()); }
             HANDSHAKE.with(|h| h.set(None));
+            PREWRITE.with(|p| *p.borrow_mut() = None);
             ctx.case(&op, &if r.trace.is_empty() { "-".to_string() } else { r.trace.join(";") });
             true
         },
@@ -815,6 +843,18 @@ pub fn generate_reads(ctx: &mut Ctx, prop: &str) {
                             }
                         }
                     }
+                    // … or wrote before: one packet of every kind written first, then a refused and an accepted version
+                    if verify {
+                        for (_, wf) in &pool.by_type {
+                            let mut b = pool.ver[8].clone(); b[2] = 1;
+                            let frames = vec![ping.clone(), b.clone(), pool.ver[9].clone(), ping.clone()];
+                            let mut evs = random_partition(&mut ctx.rng, &frames.concat(), 1);
+                            evs.push(Ev::Eof);
+                            PREWRITE.with(|p| *p.borrow_mut() = Some(wf.clone()));
+                            let _ = read_case(ctx, prop, &Case { fl, compressed, verify, frames, events: evs, wscript: vec![] });
+                            PREWRITE.with(|p| *p.borrow_mut() = None);
+                        }
+                    }
                     // every other kind passes the gate
                     for (_, f) in &pool.by_type {
                         let frames = vec![f.clone(), ping.clone()];
@@ -916,6 +956,33 @@ pub fn run(ctx: &mut Ctx, prop: &str) {
         }
     } else {
         generate_reads(ctx, prop);
+        if prop == "C07" {
+            for fl in [Flavour::Blocking, Flavour::Tokio] { for compressed in [true, false] { for k in [0usize, 1, 2, 3] { pong_fault_case(ctx, fl, compressed, k); } } }
+        }
+    }
+}
+
+/// the reply cannot be written (the write half fails, at once or after a few bytes): a keep-alive is handed to the caller
+/// only after one complete TINY_NONE frame has been written for it — so none may be handed over here without its reply
+pub fn pong_fault_case(ctx: &mut Ctx, fl: Flavour, compressed: bool, accepted_before_fault: usize) {
+    let ka = vec![size_byte(compressed, 4), 3, 0, 0];
+    let ping = vec![size_byte(compressed, 4), 3, 7, 3];
+    let frames = vec![ping.clone(), ka.clone(), ping.clone()];
+    let mut ws = vec![];
+    if accepted_before_fault > 0 { ws.push(WEv::Accept(accepted_before_fault)); }
+    ws.push(WEv::IoErr);
+    for _ in 0..8 { ws.push(WEv::Accept(4)); }
+    let evs = vec![Ev::Data(frames.concat()), Ev::Eof];
+    ctx.oracle_eval("pong-fault");
+    let r = run_reads(fl, compressed, false, evs, ws.clone());
+    let delivered = r.trace.iter().filter(|t| t.as_str() == "pkt T.0.0").count();
+    // complete reply frames among the bytes that reached the transport
+    let mut complete = 0usize;
+    let mut i = 0;
+    while i + 4 <= r.out.len() { if r.out[i..i + 4] == ka[..] { complete += 1; i += 4; } else { i += 1; } }
+    if delivered > complete {
+        let input = format!("conn.case {} {} v0 {} d:{},z ws={}", fl.tok(), mode_tok(compressed), frames.iter().map(|f| hex(f)).collect::<Vec<_>>().join("+"), hex(&frames.concat()), wscript_text(&ws));
+        ctx.violation(&format!("c07/pong-fault/{}", fl.tok()), "a keep-alive was handed to the caller although its reply could not be written", &input, &format!("{} keep-alive(s) delivered, at most {} complete replies on the wire", complete, complete), &format!("{} delivered; trace {}; out={}", delivered, r.trace.join(";"), hex(&r.out)));
     }
 }
 
